@@ -25,8 +25,9 @@ def job(seed):
         for p in ([seed.split('-')[0]] if diag else props):
             q = subprocess.run([sys.executable, os.path.join(V, 'vp', 'check.py'), p, '--no-evidence'], env=dict(os.environ, VP_REPO=d, VP_GEN=d + '_gen'), capture_output=True, text=True)
             viol = [l.split('replay=')[1].split('/')[-1][:90] for l in q.stdout.split('\n') if l.startswith('VIOLATION')]
-            out[p] = {'rc': q.returncode, 'violations': viol[:4]}
-            print(seed, p, q.returncode, viol[:2], flush=True)
+            und = [l[len('UNDECIDED property=%s ' % p):][:160] for l in q.stdout.split('\n') if l.startswith('UNDECIDED')]
+            out[p] = {'rc': q.returncode, 'violations': viol[:4], 'undecided': und[:3]}
+            print(seed, p, q.returncode, viol[:2], und[:1], flush=True)
     finally:
         shutil.rmtree(d, ignore_errors=True); shutil.rmtree(d + '_gen', ignore_errors=True)
     return seed, out
